@@ -28,18 +28,18 @@ def SameW (s s' : St) : Prop :=
   s'.b.conns.map Prod.fst = s.b.conns.map Prod.fst ∧ s'.w.unsubscribeEvent = s.w.unsubscribeEvent ∧ s'.w.unsubscribeAll = s.w.unsubscribeAll ∧
   s'.w.servicesDestroyed = s.w.servicesDestroyed ∧ s'.w.removeCalls = s.w.removeCalls ∧ s'.w.createObject = s.w.createObject ∧
   s'.w.createService = s.w.createService ∧ s'.w.destroyService = s.w.destroyService ∧ s'.w.destroyObject = s.w.destroyObject ∧
-  s'.w.abortCalls = s.w.abortCalls
+  s'.w.abortCalls = s.w.abortCalls ∧ s'.w.shutdownNow = s.w.shutdownNow
 
-theorem SameW.refl (s : St) : SameW s s := ⟨rfl, rfl, rfl, rfl, rfl, rfl, rfl, rfl, rfl, rfl⟩
+theorem SameW.refl (s : St) : SameW s s := ⟨rfl, rfl, rfl, rfl, rfl, rfl, rfl, rfl, rfl, rfl, rfl⟩
 theorem SameW.trans {a b c : St} (h1 : SameW a b) (h2 : SameW b c) : SameW a c := by
-  obtain ⟨a0, a1, a2, a3, a4, a5, a6, a7, a8, a9⟩ := h1
-  obtain ⟨b0, b1, b2, b3, b4, b5, b6, b7, b8, b9⟩ := h2
-  exact ⟨b0.trans a0, b1.trans a1, b2.trans a2, b3.trans a3, b4.trans a4, b5.trans a5, b6.trans a6, b7.trans a7, b8.trans a8, b9.trans a9⟩
+  obtain ⟨a0, a1, a2, a3, a4, a5, a6, a7, a8, a9, a10⟩ := h1
+  obtain ⟨b0, b1, b2, b3, b4, b5, b6, b7, b8, b9, b10⟩ := h2
+  exact ⟨b0.trans a0, b1.trans a1, b2.trans a2, b3.trans a3, b4.trans a4, b5.trans a5, b6.trans a6, b7.trans a7, b8.trans a8, b9.trans a9, b10.trans a10⟩
 
 theorem SameW.conns {s s' : St} (h : SameW s s') : mConns s' = mConns s := by
   have := congrArg List.length h.1; simpa [mConns] using this
 theorem SameW.work {s s' : St} (h : SameW s s') : mWork s' = mWork s := by
-  obtain ⟨_, a1, a2, a3, a4, a5, a6, a7, a8, a9⟩ := h
+  obtain ⟨_, a1, a2, a3, a4, a5, a6, a7, a8, a9, _⟩ := h
   simp [mWork, a1, a2, a3, a4, a5, a6, a7, a8, a9]
 
 theorem sendOrRemove_w (s : St) (to : ConnId) (m : Rsp) (v : Option Nat) : SameW s (s.sendOrRemove to m v) := by
@@ -59,7 +59,7 @@ theorem emitBusEvent_w (s : St) (e : BusEv) : SameW s (emitBusEvent s e) := by
   · exact SameW.refl _
 
 theorem setConn_w {s : St} {cid : ConnId} {old : Conn} (h : s.conn? cid = some old) (new : Conn) : SameW s (s.setConn cid new) := by
-  refine ⟨?_, rfl, rfl, rfl, rfl, rfl, rfl, rfl, rfl, rfl⟩
+  refine ⟨?_, rfl, rfl, rfl, rfl, rfl, rfl, rfl, rfl, rfl, rfl⟩
   simp only [St.setConn_b_conns]
   exact AL.keys_insert_of_some (by simpa [St.conn?] using h)
 
